@@ -5,7 +5,9 @@ A case is a JSON-able dict
     {'family': str,
      'refs':   [[stage|None, name, file|None, method, declared_spelling], ...]   # in DECLARATION order
      'tokens': [['r', ref_index, 'rel'|'abs', wrap] | ['l', literal_text], ...]  # arguments = ' '.join(rendered)
-     'contents': {'<stage>/<name>/<file>': text}}                                # non-default contents of :output files
+     'contents': {'<stage>/<name>/<file>': text},                                # non-default contents of :output files
+     'streams': {'<stage>/<name>': [n, ...]},   # optional: the producer is REPEATING and has these archived stdout streams
+     'consumer_repeat': bool}                   # optional: the consumer is a repeating component (same-stage observer)
 
 All consumers live in stage CONSUMER_STAGE (1); producers live in stage 0 or 1 (so equal names across stages occur and
 both spellings exist for same-stage producers); stage None denotes a direct reference to a reserved folder (`data`).
@@ -308,6 +310,55 @@ def fam_special_values(family='special-value'):
 
 
 
+# :output (stdout, no file) of a REPEATING producer: the referenced file is the most recent archived stream
+# streams/<n>.stdout. The alphabet is the SET of retained stream indexes (every sliding window of 1..4 consecutive
+# repetitions over 0..13, windows straddling 99->100 and 999->1000, a few non-contiguous sets).
+def stream_sets():
+    sets = []
+    for size in (1, 2, 3, 4):
+        for lo in range(0, 14 - size + 1):
+            sets.append(list(range(lo, lo + size)))
+    sets += [[97, 98, 99, 100], [98, 99, 100, 101], [99, 100, 101, 102], [99, 100], [100, 101], [999, 1000],
+             [998, 999, 1000, 1001], [2, 10], [1, 10, 100], [0, 5], [9, 11], [19, 20, 21], [9, 100], [20, 100, 3]]
+    seen, out = set(), []
+    for x in sets:
+        if tuple(x) not in seen:
+            seen.add(tuple(x))
+            out.append(x)
+    return out
+
+
+def stream_content(stage, name, n):
+    return 'STREAM_s%s_%s_%d' % (stage, name, n)
+
+
+def fam_repeating(family='repeating-stdout'):
+    """every stream-index set x {cross-stage consumer: key=<output>; <output> next to <same producer>:ref in both
+    declaration orders; same-stage repeating consumer (observer) in both spellings}. Every case has its own producer."""
+    for k, S in enumerate(stream_sets()):
+        p = (0, 'r%d' % k)
+        ro = [p[0], p[1], None, 'output', 'abs']
+        rr = mkref(p, 'ref', 'abs')
+        st = {'%d/%s' % p: list(S)}
+        c = case(family, [ro], [['l', '--x'], ['r', 0, 'abs', 'key']])
+        c['streams'] = st
+        yield c
+        for order in ((0, 1), (1, 0)):
+            base = [ro, rr]
+            refs = [base[i] for i in order]
+            io, ir = order.index(0), order.index(1)
+            c = case(family, refs, [['r', io, 'abs', 'bare'], ['r', ir, 'abs', 'key']])
+            c['streams'] = st
+            yield c
+        q = (CONSUMER_STAGE, 'q%d' % k)
+        for sp in ('rel', 'abs'):
+            c = case(family, [[q[0], q[1], None, 'output', sp]], [['r', 0, sp, 'bare'], ['l', ';']])
+            c['streams'] = {'%d/%s' % q: list(S)}
+            c['consumer_repeat'] = True
+            yield c
+
+
+
 # --------------------------------------------------------------------------------------- families (thorough extension)
 def fam_pair_full(names, family='pair-full'):
     """pairs: independent wrappers (3x3), both token orders, declared spelling = used spelling; plus declared spelling
@@ -376,7 +427,7 @@ def core_cases():
     # triples in the fixed core leave out the neutral name `x` (it is part of every other family and of the
     # thorough triples)
     return itertools.chain(fam_pair(n), fam_triple([x for x in n if x != 'x']), fam_mixed(n), fam_lookalike(n),
-                           fam_literal(n), fam_methods(n), fam_direct(), fam_special_values())
+                           fam_literal(n), fam_methods(n), fam_direct(), fam_special_values(), fam_repeating())
 
 
 def extension_cases():
@@ -389,7 +440,10 @@ def extension_cases():
 
 
 def key_of(c):
-    return canon([c['refs'], c['tokens'], c['contents']])
+    k = [c['refs'], c['tokens'], c['contents']]
+    if c.get('streams') or c.get('consumer_repeat'):
+        k += [c.get('streams', {}), bool(c.get('consumer_repeat'))]
+    return canon(k)
 
 
 def shard_of(c):
